@@ -244,7 +244,7 @@ def obj_result(r):
 
 
 # ------------------------------------------------------------------ triage: constructs the model declines
-SEMANTIC_TAGS = {0, 1, 4, 5, 25, 28, 29, 30, 35, 36, 37, 100, 256, 258, 260, 261, 1004, 43000, 55799}
+SEMANTIC_TAGS = {0, 1, 4, 5, 25, 28, 29, 30, 35, 36, 37, 52, 54, 100, 256, 258, 260, 261, 1004, 43000, 55799}   # every tag cbor2 6 gives a meaning to (found by probing 0..300 and the registered big ones), except the bignums 2 / 3 which the model has
 
 
 def unmodelled(b, depth=0):
